@@ -311,7 +311,7 @@ impl Planner {
         // the invariant table, all point groups of the cover construction and
         // tori of many shapes
         for cc in sweep.list.iter() {
-            let reps = if thorough { 3 } else if cc.k <= 4 { 2 } else { 1 };
+            let reps = if thorough { 3 } else if cc.k <= 8 { 2 } else { 1 };
             for j in 0..cc.count {
                 if cc.sheets[j] < 2 {
                     continue;
@@ -722,12 +722,12 @@ pub fn sweep_counts(corpus: &Corpus, tier: Tier) -> CoverCounts {
             entries.push((e, true, kh));
         }
     }
-    // every literal: covers with up to 4 sheets (the small-cover blocks stop at
+    // every literal: covers with up to 6 (thorough: 8) sheets (the small-cover blocks stop at
     // 2 / 3 sheets; seeded defect S19 needed the 960-chamber pseudo-toroidal
     // covers of 4-sheeted covers of one literal)
     for e in corpus.k0.iter() {
         if e.text != CUBE && e.text != HEX_PRISM {
-            entries.push((e, true, 4));
+            entries.push((e, true, if tier == Tier::Thorough { 8 } else { 6 }));
         }
     }
     CoverCounts::compute(&entries)
